@@ -30,6 +30,8 @@ def cases(tier, salts):
             base.append(("bounded_infeasible", dict(cfgs.base_cfg(prob, salt, maxfun=30, **BOX), x0=[-2.5, 2.5])))
             base.append(("scaled_infeasible", dict(cfgs.base_cfg(prob, salt, maxfun=30, scaling=True, **BOX), x0=[1.5, -1.0])))
             base.append(("onesided", dict(cfgs.base_cfg(prob, salt, maxfun=30, lo=[-1.0, None], hi=None), x0=[-2.5, 2.5])))
+            # infinite entries in the caller's bound arrays (accepted, and treated like the documented 1e20)
+            base.append(("onesided_inf", dict(cfgs.base_cfg(prob, salt, maxfun=30, lo=["inf", -0.5], hi=[0.9, "inf"]), x0=[-2.5, 2.5])))
             base.append(("regression", cfgs.base_cfg(prob, salt, maxfun=50, npt=5)))
             # the largest point count the deterministic coordinate initialisation supports: (n+1)(n+2)/2
             base.append(("regression_max", cfgs.base_cfg(prob, salt, maxfun=50, npt=6)))
